@@ -528,6 +528,13 @@ func (c *vacCase) run() {
 		return
 	}
 	if fr, err := c.freshRows(); err != nil || !strings.Contains(fr, "I:9999") {
+		// F42 (dependency), second symptom: with a node cache the tree in memory can hold a subtree the stored
+		// version does not have (node objects shared through the cache, modified in place); the vacuum deletes
+		// its nodes as garbage, and the version this connection stores next refers to them
+		if c.cache > 0 && err != nil && strings.Contains(err.Error(), "NoSuchKey") && c.st.known("F42") {
+			c.st.Count("known_F42_dangling_write")
+			return
+		}
 		c.fail(fmt.Sprintf("a row written after vacuum is not visible to a fresh reader: %q %v", fr, err))
 		return
 	}
